@@ -130,7 +130,9 @@ def prepare(case, bolt11_of):
 # scripted stories
 # ------------------------------------------------------------------------------------------
 PAY_ENDINGS = ["complete", "failed_noparts", "failed_after_partfail", "pending_then_done", "pending_then_fail",
-               "error_then_done", "error_then_fail", "warn_then_done", "warn_then_fail", "two_parts_one_done", "two_parts_both_fail"]
+               "error_then_done", "error_then_fail", "warn_then_done", "warn_then_fail", "two_parts_one_done", "two_parts_both_fail",
+               "pending_slow_done", "pending_slow_fail", "error_slow_done", "warn_slow_fail"]
+NEND = len(PAY_ENDINGS)
 
 def pay_ending(r, kind):
     """Events from the moment the pay call is outstanding (unprocessed) to its fate."""
@@ -142,17 +144,22 @@ def pay_ending(r, kind):
         ev += [{"e": "payfin_next", "out": "failed"}]
     elif kind == "failed_after_partfail":
         ev += [{"e": "newpart_next"}, {"e": "part_next", "st": "fail", "code": r.choice(codes)}, {"e": "payfin_next", "out": "failed"}]
-    elif kind in ("pending_then_done", "pending_then_fail", "error_then_done", "error_then_fail", "warn_then_done", "warn_then_fail"):
+    elif kind in ("pending_then_done", "pending_then_fail", "error_then_done", "error_then_fail", "warn_then_done", "warn_then_fail",
+                  "pending_slow_done", "pending_slow_fail", "error_slow_done", "warn_slow_fail"):
         out = {"pending": "pending", "error": "error", "warn": "failed_warn"}[kind.split("_")[0]]
         fin = {"e": "payfin_next", "out": out}
         if out == "error": fin["err"] = r.choice(["transport", "-1", "nocode"] + [str(c) for c in range(200, 211)])   # every code pay documents
         last = {"e": "part_next", "st": "done"} if kind.endswith("done") else {"e": "part_next", "st": "fail", "code": r.choice(codes)}
         ev += [{"e": "newpart_next"}, fin]
         # the part resolves at a random point of the wait_payment that follows
-        pos = r.below(6)
-        tail = [{"e": "drain_step"}] * 8
-        tail.insert(pos, last)
-        ev += tail
+        if "_slow_" in kind:
+            # the part stays in flight for longer than the payment timeout while the plugin waits for it
+            ev += [{"e": "drain_step"}] * 8 + [{"e": "tick", "ms": r.choice([61000, 61000, 120000, 600000])}] + [{"e": "drain_step"}] * r.choice([0, 3, 6]) + [last] + [{"e": "drain_step"}] * 8
+        else:
+            pos = r.below(6)
+            tail = [{"e": "drain_step"}] * 8
+            tail.insert(pos, last)
+            ev += tail
     elif kind == "two_parts_one_done":
         ev += [{"e": "newpart_next"}, {"e": "newpart_next"}, {"e": "payfin_next", "out": "pending"}]
         tail = [{"e": "drain_step"}] * 10
